@@ -1,7 +1,8 @@
 (* C18 — Line protocol is segmentation-invariant; IRC messages are exactly one line.
-   Only statements here; proofs live in Proofs/LineP.v and Proofs/IrcP.v. *)
+   Only statements here; proofs live in Proofs/LineP.v, Proofs/IrcP.v and
+   Proofs/IrcRoundP.v. *)
 From Coq Require Import List NArith.
-From Circ Require Import Model.Line Model.Irc Proofs.LineP Proofs.IrcP.
+From Circ Require Import Model.Line Model.Irc Proofs.LineP Proofs.IrcP Proofs.IrcRoundP.
 Import ListNotations.
 Open Scope N_scope.
 
@@ -48,4 +49,37 @@ Proof. vm_compute. reflexivity. Qed.
 Example C18_ex_msg :
   to_str {| command := [80; 73]; prefix := Some [97]; args := [[120]; [104; 32; 105]] |}
   = Some [58; 97; 32; 80; 73; 32; 120; 32; 58; 104; 32; 105; 13; 10].
+Proof. vm_compute. reflexivity. Qed.
+
+(* round trip, partial: parsemsg inverts to_str on canonical messages, i.e. the
+   command and every argument but the last are tokens (non-empty, no whitespace,
+   no leading ':'), and the last argument is a token or contains a space and
+   does not start with ':' *)
+Theorem C18_roundtrip_partial : forall m b, to_str m = Some b -> canonical m ->
+  exists body, b = body ++ [13; 10] /\
+    parsemsg body = POk (match prefix m with Some p => p | None => [] end)
+                        (Some (command m)) (args m).
+Proof. exact roundtrip. Qed.
+Print Assumptions C18_roundtrip_partial.
+
+(* ... and not in general: an accepted message whose parse differs from it *)
+Theorem C18_roundtrip_refuted : exists m b body,
+  to_str m = Some b /\ b = body ++ [13; 10] /\
+  parsemsg body <> POk (match prefix m with Some p => p | None => [] end)
+                       (Some (command m)) (args m).
+Proof. exact roundtrip_refuted. Qed.
+Print Assumptions C18_roundtrip_refuted.
+
+(* non-vacuity of canonical:  ":nick PRIVMSG #c x :h i" *)
+Example C18_ex_canonical :
+  canonical {| command := [80; 82; 73; 86; 77; 83; 71]; prefix := Some [110; 105; 99; 107];
+               args := [[35; 99]; [120]; [104; 32; 105]] |}.
+Proof.
+  split; [|split; [right; split; reflexivity|]];
+    repeat first [ constructor | discriminate | reflexivity ].
+Qed.
+Example C18_ex_roundtrip :
+  parsemsg [58; 110; 105; 99; 107; 32; 80; 82; 73; 86; 77; 83; 71; 32; 35; 99; 32; 120;
+            32; 58; 104; 32; 105]
+  = POk [110; 105; 99; 107] (Some [80; 82; 73; 86; 77; 83; 71]) [[35; 99]; [120]; [104; 32; 105]].
 Proof. vm_compute. reflexivity. Qed.
